@@ -6,7 +6,7 @@ Parameters of the model (stated contracts): `chunks` is `textwrap.TextWrapper().
 whose only assumed property is `chunks.flatten = munge t` (and no empty chunk); the text `s` is what
 `ircutils.safeArgument` returned; `irc.isChannel` enters through three booleans of `Env`.
 -/
-import LimnoriaModel.C12.LemmasReply
+import LimnoriaModel.C12.LemmasFlags
 namespace C12
 open Py
 
@@ -356,6 +356,95 @@ theorem visible_text_plain (e : Env) (cfg : Cfg) (chunks : List Str) (s : Str) (
          else some ((deliveryOrder e lines).drop (max cfg.instant 1)).reverse) := by
   obtain ⟨lines, h1, h2, h3⟩ := ircWrap_plain chunks s1 hplain hcontract (allowed - suffixReserve (blen s1)) (by omega)
   exact ⟨lines, h2, h3, reply_chunked e cfg chunks s allowed s1 hprep (by omega) lines h1⟩
+
+/-! ## text without colour codes: full theorems; text with colour codes: the counter-example -/
+
+theorem flags_ok : FlagsOk := by decide
+
+/-- For text without colour codes (any use of bold, reverse, underline, reset, italic; over-long words;
+multi-byte characters) the contexts `ircutils.wrap` recomputes from the produced lines are the contexts
+of the original text, so the reserved overhead always suffices. -/
+theorem coherent_nocolour (chunks : List Str) (s : Str) (hn : NoColour s) (hcontract : chunks.flatten = munge s)
+    (length : Nat) (h4 : (parse s).maxSize + 4 ≤ length) : coherent chunks s length = true := by
+  obtain ⟨raw, hraw, _, hflat, _⟩ := ircWrap_struct chunks s length h4
+  unfold coherent
+  rw [hraw]
+  have hnm := nocolour_munge flags_ok hn
+  apply coherentFrom_nocolour consts_ok.1 consts_ok.2.1 flags_ok _ raw [] none
+  · simpa [hflat, hcontract] using hnm
+  · simp only [List.nil_append, hflat, hcontract, parse_munge flags_ok s hn]; exact Nat.le_refl _
+  · exact Or.inl ⟨rfl, rfl⟩
+
+/-- `ircutils.wrap` on text without colour codes: every line fits the requested length, and the visible
+text of the lines, concatenated, is the visible text of the (munged) input — nothing lost, nothing
+invented, whatever the words, the formatting toggles and the cut points. -/
+theorem ircWrap_nocolour (chunks : List Str) (s : Str) (hn : NoColour s) (hcontract : chunks.flatten = munge s)
+    (length : Nat) (h4 : (parse s).maxSize + 4 ≤ length) :
+    ∃ lines, ircWrap chunks s length = .ok lines ∧ (∀ l ∈ lines, blen l ≤ length) ∧
+      (lines.map stripFormatting).flatten = stripFormatting (munge s) := by
+  obtain ⟨lines, h1, h2⟩ := ircWrap_fits_partial chunks s length h4 (coherent_nocolour chunks s hn hcontract length h4)
+  obtain ⟨raw, _, hwrap, hflat, _⟩ := ircWrap_struct chunks s length h4
+  rw [hwrap] at h1; injection h1 with h1; subst h1
+  refine ⟨_, hwrap, h2, ?_⟩
+  have hnm := nocolour_munge flags_ok hn
+  have hraw : ∀ l ∈ raw, NoColour l := nocolour_of_flatten (by rw [hflat, hcontract]; exact hnm)
+  rw [strip_processLines flags_ok raw none hraw (Or.inl rfl), stripFormatting_nocolour _ hnm, ← hcontract, ← hflat,
+    List.filter_flatten]
+  congr 1
+  apply List.map_congr_left
+  intro l hl
+  exact stripFormatting_nocolour l (hraw l hl)
+
+example : NoColour ([Char.ofNat 2] ++ "bold ".toList ++ [Char.ofNat 31] ++ "both".toList ++ [Char.ofNat 15] ++ " plain".toList) := by decide
+
+/-- Every message of a chunked reply without colour codes fits in 512 bytes. -/
+theorem fits_512_nocolour (e : Env) (cfg : Cfg) (chunks : List Str) (s : Str) (allowed : Nat) (s1 : Str)
+    (hn : NoColour s)
+    (hauto : cfg.moresLength = 0)
+    (hprep : prepare e cfg s = some (allowed, s1, false))
+    (hE : blen Gen.emptyReply ≤ allowed)
+    (hcontract : chunks.flatten = munge s1) (hne : ∀ c ∈ chunks, c ≠ [])
+    (h4 : suffixReserve (blen s1) + (parse s1).maxSize + 4 ≤ allowed) :
+    ∃ now stored, reply e cfg chunks s = .sent now stored ∧
+      ∀ o ∈ now ++ stored.getD [], blen (wire e o) ≤ 512 := by
+  obtain ⟨hc, hk, ht⟩ := consts_ok
+  obtain ⟨_, hs1, _⟩ := prepare_auto ht hc e cfg s allowed s1 false hauto hprep
+  have hn1 : NoColour s1 := by
+    rw [hs1]; unfold truncate
+    split
+    · intro c hc'; exact hn c (List.mem_of_mem_take hc')
+    · exact hn
+  exact fits_512_partial e cfg chunks s allowed s1 hauto hprep hE hcontract hne h4
+    (coherent_nocolour chunks s1 hn1 hcontract _ (by omega))
+
+/-
+Full statement (visible text preserved by `ircutils.wrap`, for all texts):
+
+    ∀ chunks s length, chunks.flatten = munge s → (parse s).maxSize + 4 ≤ length →
+      ∃ lines, ircWrap chunks s length = .ok lines ∧
+        (lines.map stripFormatting).flatten = stripFormatting (munge s)
+
+FALSE on the pinned tree (`visible_text_counterexample`, known finding C12-cut-inside-colour-code):
+`splitBytes` cuts an over-long word between `\x03` and its digits.  Proved for all text without colour
+codes (`ircWrap_nocolour`).
+-/
+def cutText : Str := "aaaaaaaaa".toList ++ Char.ofNat 3 :: "04".toList ++ List.replicate 20 'b'
+
+theorem visible_text_counterexample :
+    ¬ (∀ chunks s length, chunks.flatten = munge s → (parse s).maxSize + 4 ≤ length →
+        ∃ lines, ircWrap chunks s length = .ok lines ∧
+          (lines.map stripFormatting).flatten = stripFormatting (munge s)) := by
+  intro h
+  obtain ⟨lines, h1, h2⟩ := h [cutText] cutText 16 (by decide +kernel) (by decide +kernel)
+  have hv : (match ircWrap [cutText] cutText 16 with
+      | .ok ls => (ls.map stripFormatting).flatten
+      | _ => []) = "aaaaaaaaa4".toList ++ List.replicate 20 'b' := by decide +kernel
+  rw [h1] at hv
+  simp only at hv
+  rw [h2] at hv
+  revert hv
+  decide +kernel
+
 
 /-! ## reply.mores.maximum -/
 
